@@ -346,8 +346,8 @@ def law_context(ch):
         depth = ch.integer(1, 3, "depth")
         modes = [ch.choice(["auto", "fused", "blockwise"], f"m{d}")
                  for d in range(depth)]
-        how = ch.choice(["normal", "exception", "generator", "bad-mode"],
-                        "exit")
+        how = ch.choice(["normal", "exception", "generator", "bad-mode",
+                         "decorator", "decorator-exception"], "exit")
 
         def nested(d):
             if d == depth:
@@ -368,7 +368,32 @@ def law_context(ch):
                     "context:not-restored-at-level",
                     f"level {d}: {sr.get_default_tensordot_mode()!r} != {want!r}")
 
-        if how == "generator":
+        if how.startswith("decorator"):
+            # the manager used as a decorator on (mutually) recursive
+            # functions: every call enters and leaves the temporary mode
+            deco = sr.default_tensordot_mode(modes[0])
+            boom = how == "decorator-exception"
+
+            @deco
+            def f(n):
+                require(sr.get_default_tensordot_mode() == modes[0],
+                        "context:not-set-inside-decorated", "")
+                if n:
+                    return g2(n - 1)
+                if boom:
+                    raise KeyError("boom")
+                r = sr.tensordot(a, b, axes, mode=None, preserve_array=True)
+                same_array(r, ref, "context:result-differs", exact=True)
+
+            @deco
+            def g2(n):
+                return f(n)
+
+            try:
+                f(depth)
+            except KeyError:
+                require(boom, "context:unexpected", "")
+        elif how == "generator":
             def g():
                 with sr.default_tensordot_mode(modes[0]):
                     yield 1
